@@ -324,7 +324,10 @@ def run_case(ctx, case):
     if probe["form"] == "reset_attr" and "_if" not in probe["k"]:
         C, _ = reach(world, hist)
         oc, rc = ops.execute(world, C, {"t": "del", "attr": probe["m"][6:]})
-        if oc != ob or (oc == "ok" and model.state_of(C) != model.state_of(B)):
+        nothing_there = probe["m"][6:] not in before and model.model_default(world, cname, probe["m"][6:]) is model.ABSENT
+        if nothing_there and oc == "raise" and isinstance(rc, AttributeError) and ob == "ok" and model.state_of(C) == model.state_of(B):
+            pass  # `del` of a name that holds nothing is Python's AttributeError; the helper spelling is a no-op - same state either way
+        elif oc != ob or (oc == "ok" and model.state_of(C) != model.state_of(B)):
             ctx.fail(f"{route}|del_differs", case, f"del obj.{probe['m'][6:]} -> {oc}; reset_(_inplace=True) -> {ob}")
             return
     # (4) folds
